@@ -309,6 +309,18 @@ def end_to_end(ctx, ok):
         for i in range(8 if ctx.quick else 80):
             img, fr = pl.gen_modular_image(rng, {"multi_group": True} if i % 4 == 3 else None)
             plans.append(pl.plan_line(img, fr))
+        # XYB-encoded Modular images, narrow and wide buffers: the renderer converts the integer grids to
+        # float itself (ImageBuffer::cast_to_float / convert_to_float_modular_xyb) - buffers that change
+        # owner on the way must stay charged exactly once (seeded: c13-cast-to-float-leaks-handle)
+        nx = 0
+        while nx < (4 if ctx.quick else 40):
+            img, fr = pl.gen_modular_image(rng, {"bits": rng.choice([8, 10, 12])})
+            if img["gray"] or any(t[0] in ("pal",) for t in fr[0]["tr"]):
+                continue
+            img["xyb"] = True
+            img["buf16"] = nx % 2 == 1
+            plans.append(pl.plan_line(img, fr))
+            nx += 1
         for e in run_lines_robust([MODEL_EXE, "enc"], plans, per_line_timeout=60):
             r = pl.parse_enc_output(e) if e and e.startswith("ok") else None
             if r:
